@@ -5,6 +5,7 @@ import (
 	"math"
 	"sort"
 	"strings"
+	"time"
 
 	"github.com/google/badwolf/bql/table"
 	"github.com/google/badwolf/triple"
@@ -32,11 +33,19 @@ func nodeVal(t *triple.Triple) Val { return Val(nodeKey(t.Subject())) }
 // known finding narrowly, never to judge.
 var zoneSensitive = false
 
+// registries from canonical values back to concrete ones (template instantiation, C04)
+var (
+	valPreds = map[Val]*predicate.Predicate{}
+	valTimes = map[Val]time.Time{}
+)
+
 func predVal(p *predicate.Predicate) Val {
 	if zoneSensitive {
 		return Val("P" + p.String())
 	}
-	return Val("P" + predKey(p))
+	v := Val("P" + predKey(p))
+	valPreds[v] = p
+	return v
 }
 
 func objVal(o *triple.Object) Val {
@@ -51,7 +60,9 @@ func timeVal(p *predicate.Predicate) Val {
 	if zoneSensitive {
 		return Val("T|" + ta.Format("2006-01-02T15:04:05.999999999Z07:00"))
 	}
-	return Val(fmt.Sprintf("T|%d", ta.UnixNano()))
+	v := Val(fmt.Sprintf("T|%d", ta.UnixNano()))
+	valTimes[v] = *ta
+	return v
 }
 
 func strVal(s string) Val { return Val("S|" + s) }
